@@ -64,6 +64,10 @@ def configs(tier):
                     yield ("iter-source", clients, word, None, (1, "ops"), (w, n, m), None)
                     if word == WORDS[0]:
                         yield ("iter-source", clients, word, ("det", 10), (1, "ops"), (w, n, m), None)
+            # a warm-up *period* without a time period: the finite parameter source ends the task, requests after the warm-up are normal
+            for wt in (1, 2.5):
+                for m in (3, 12):
+                    yield ("time-source", clients, word, None, (1, "ops"), (wt, m), None)
             # runner that can report completion, but the task asks for explicit iterations
             for w, n in ((1, 2), (0, 3), (2, 1)):
                 yield ("completing", clients, word, None, (1, "ops"), (w, n), None)
@@ -125,7 +129,11 @@ def build(cfg):
         if sched == "poisson":
             task_kw["schedule"] = "poisson"
     op_params = {"weight": weight, "unit": unit}
-    if kind == "iter-source":
+    if kind == "time-source":
+        wt, m = lc
+        task_kw["warmup_time_period"] = wt
+        op_params["source-size"] = m
+    elif kind == "iter-source":
         w, n, m = lc
         if w is not None:
             task_kw["warmup_iterations"] = w
@@ -218,6 +226,20 @@ def check(cfg, res):
                     v = ("warmup-flags", f"{ctx}: {types} for warmup-iterations={lc[0]} iterations={n}")
                 elif abs(prog[-1] - 1.0) > TOL:
                     v = ("final-progress", f"{ctx}: progress ends at {prog[-1]}")
+            elif kind == "time-source":
+                wt, m = lc
+                ends = [en["t_end"] for en in lg]
+                if len(ss) != m:
+                    v = ("source-size", f"{ctx}: {len(ss)} requests for a parameter source of {m}")
+                else:
+                    for k, s_ in enumerate(ss):
+                        prev_end = ends[k - 1] if k else 0.0
+                        if prev_end >= wt + TOL and s_.sample_type != N:
+                            v = ("warmup-flag-after-warmup", f"{ctx} request {k}: previous request ended at {prev_end} >= warm-up {wt} but flagged {s_.sample_type}")
+                        elif ends[k] < wt - TOL and s_.sample_type != W:
+                            v = ("normal-flag-within-warmup", f"{ctx} request {k}: completed at {ends[k]} < warm-up {wt} but flagged {s_.sample_type}")
+                        if v:
+                            break
             elif kind == "iter-source":
                 w, n, m = lc
                 w = w or 0
